@@ -472,7 +472,8 @@ C19_MODELS = [
     "itself is the subject of c19_wrapper / c19_client_state",
     "CallTrait::get_request -> Some(the symbolic request) (a server-side call always carries its request)",
     "serde_json::to_value, new_mytype -> Ok or Err (free); Result::map_err / Try::branch / FromResidual::from_residual -> the `?` contract",
-    "serde_json::from_value::<Args> -> Ok(parsed) or Err (free `parse`); <Args as PartialEq>::eq(canonical, parsed) -> free `args_equal`",
+    "serde_json::from_value::<Args> -> Ok(parsed) or Err (free `parse`); <Args as PartialEq>::eq(canonical, parsed) -> free `args_equal`, "
+    "after checking that no leaf of the canonical operand is one of the step's own request parameters (client_id apart)",
     "<&Cow<str> as PartialEq<&str>>::eq, <String as PartialEq<&str>>::ne -> equality of string values",
     "Call_*::reply / reply_client_id_error / reply_certification_error / set_continues -> recorded events; reply results Ok or Err (free)",
     "HashMap<String, TestContext>::get_mut(key) -> Some(&mut the entry whose key equals `key`) else None, one successor per case",
